@@ -102,8 +102,15 @@ class EnumDef:
                     lit = f"{d:#x}"
                 if n in getattr(self, "const_discr", ()):
                     lit = f"VK_{self.name}_{n}"
+                if n in getattr(self, "discr_text", {}):
+                    # spelled differently (suffix, sign, ...); with wrap_macro the text reaches the
+                    # attribute macro through a macro_rules! $literal fragment
+                    lit = f"$v_{n}" if getattr(self, "wrap_macro", False) else self.discr_text[n]
                 out.append(f"    {n} = {lit},")
         out.append("}")
+        if getattr(self, "wrap_macro", False):
+            ns = list(self.discr_text)
+            out = ["macro_rules! vmk_enum { (" + ", ".join(f"$v_{n}:literal" for n in ns) + ") => {"] + ["    " + l for l in out] + ["} }", "vmk_enum!(" + ", ".join(self.discr_text[n] for n in ns) + ");"]
         if getattr(self, "const_discr", ()):
             rp = self.repr or "isize"
             pre = [f"pub const VK_{self.name}_{n}: {rp} = {d:#x};" for (n, d, c) in self.variants if n in self.const_discr]
@@ -111,7 +118,7 @@ class EnumDef:
         return "\n".join(out)
 
     def sig(self):
-        return ("enum", self.bits, tuple((d, c) for (_, d, c) in self.variants), self.exhaustive, self.legacy, self.repr, self.lit_form)
+        return ("enum", self.bits, tuple((d, c) for (_, d, c) in self.variants), self.exhaustive, self.legacy, self.repr, self.lit_form, tuple(sorted(getattr(self, "discr_text", {}).items())), getattr(self, "wrap_macro", False))
 
     # ---- rule oracle, property C10 ------------------------------------------------------------
     def rule_valid(self) -> bool:
@@ -122,6 +129,8 @@ class EnumDef:
             return False
         if getattr(self, "implicit", ()) or getattr(self, "const_discr", ()):
             return False  # every variant needs an explicit integer-literal discriminant
+        if getattr(self, "discr_text", None) and not getattr(self, "discr_text_valid", False):
+            return False
         if any(d >= n for (_, d, _) in self.variants):
             return False
         if has_cfg and self.exhaustive != "conditional":
